@@ -278,8 +278,8 @@ func setBounds(r *rand.Rand, n, knob int, start, end **int, endNil *bool) {
 }
 
 // avoidAtLength rewrites, in three cases out of four, explicit bounds equal to
-// the length into equivalent or interior ones (fill, replace, mismatch and
-// reduce reject them: listed findings).
+// the length into equivalent or interior ones (fill, replace and mismatch
+// reject them: listed findings).
 func avoidAtLength(r *rand.Rand, n, knob int, start, end **int) {
 	if knob != -1 || r.IntN(4) == 0 {
 		return
@@ -314,8 +314,8 @@ func setCount(r *rand.Rand, c *Case, n, knob int) {
 			c.Count = ip(-1)
 		case x == 10:
 			c.Count = ip(n + 1)
-		case x == 11 && r.IntN(3) == 0:
-			c.CntNil = true // listed finding; kept in a small minority
+		case x == 11:
+			c.CntNil = true
 		default:
 			c.Count = ip(r.IntN(4))
 		}
@@ -412,9 +412,6 @@ func genCase(r *rand.Rand, sp *fspec, typ string, k knobs) Case {
 		}
 		if sp.count {
 			setCount(r, &c, len(idx), k.count)
-			if c.New != "" && k.count == -1 && c.Count != nil && r.IntN(3) != 0 {
-				c.Count = nil // substitute mishandles :count (listed findings): minority
-			}
 		}
 		if sp.fromE {
 			setFromEnd(r, &c, k.fromEnd)
@@ -453,9 +450,7 @@ func genCase(r *rand.Rand, sp *fspec, typ string, k knobs) Case {
 		c.S1 = elements("pair", idx, 0)
 		c.Key, _ = chooseKey(r, "int", yes(r, k.key))
 		if sp.fam == "assoc" {
-			// assoc/rassoc call order tests with swapped arguments (listed
-			// finding): equivalences in three cases out of four
-			c.Test = chooseTest(r, "int", yes(r, k.test), k.test == -1 && r.IntN(4) != 0)
+			c.Test = chooseTest(r, "int", yes(r, k.test), false)
 			c.Item = keyed(c.Key, pickStr(r, alphabets["int"]))
 			if r.IntN(6) == 0 {
 				c.Item = "7"
@@ -632,25 +627,6 @@ func genCase(r *rand.Rand, sp *fspec, typ string, k knobs) Case {
 		c.Pred = pickStr(r, names)
 		c.S1 = sortedBy(elements(flav, seqIdx(), 0), c.Key, c.Pred)
 		c.S2 = sortedBy(elements(flav, randIdx(r, k.length(r)), 20), c.Key, c.Pred)
-		if r.IntN(4) != 0 {
-			// merge orders cross-sequence ties the wrong way round (listed
-			// finding): three cases out of four have no such ties
-			less := orders[c.Pred].f
-			var keep []string
-			for _, e := range c.S2 {
-				tie := false
-				for _, o := range c.S1 {
-					a, b := parseTok(keyed(c.Key, e)), parseTok(keyed(c.Key, o))
-					if !less(a, b) && !less(b, a) {
-						tie = true
-					}
-				}
-				if !tie {
-					keep = append(keep, e)
-				}
-			}
-			c.S2 = keep
-		}
 		if flav == "char" {
 			c.RT = pickStr(r, allT)
 		} else {
@@ -786,7 +762,6 @@ func genCase(r *rand.Rand, sp *fspec, typ string, k knobs) Case {
 		}
 		c.Pred = pickStr(r, fns)
 		setBounds(r, len(idx), k.bounds, &c.Start, &c.End, &c.EndNil)
-		avoidAtLength(r, len(idx), k.bounds, &c.Start, &c.End)
 		setFromEnd(r, &c, k.fromEnd)
 		if yes(r, k.test) { // knob reused: :initial-value
 			if flav2 == "int" {
